@@ -88,6 +88,18 @@ def h_mps_numeric(V, family, N, seed):
         s_got = s_got[s_got > 1e-12]
         ok = ok and len(s_ref) == len(s_got) and bool(np.allclose(s_ref, s_got, atol=1e-9))
     V.check('Schmidt-values-equal-the-singular-values-of-the-dense-bipartition', ok)
+    for to in ('first', 'last'):
+        phi = psi.copy()
+        phi.canonize_(to=to)
+        svc = phi.get_Schmidt_values()
+        okc = len(svc) == N + 1
+        for k in range(N + 1):
+            s_ref = np.linalg.svd(vn.reshape(d ** k, -1), compute_uv=False)
+            s_got = np.sort(np.concatenate([np.asarray(svc[k][t]) for t in svc[k].get_blocks_charge()] or [np.zeros(0)]))[::-1]
+            s_ref, s_got = s_ref[s_ref > 1e-12], s_got[s_got > 1e-12]
+            okc = okc and len(s_ref) == len(s_got) and bool(np.allclose(s_ref, s_got, atol=1e-9))
+        V.check(f'Schmidt-values-of-a-state-canonical-towards-{to}-equal-the-dense-singular-values', bool(okc))
+        V.check(f'get_Schmidt_values-leaves-the-state-canonical-towards-{to}-untouched', close(dense_in_space(ops, phi), vn) and bool(phi.is_canonical(to=to, tol=1e-9)))
     ent2 = psi.get_entropy(alpha=2)
     ok1 = ok2 = len(ent) == N + 1 and len(ent2) == N + 1
     for k in range(N + 1):
